@@ -20,6 +20,8 @@ import (
 	"strings"
 	"sync"
 	"time"
+
+	"github.com/virus-evolution/gofasta/pkg/verifhook"
 )
 
 // Violation is one observed refutation of a property.
@@ -96,6 +98,9 @@ type Property struct {
 	HangNotViolation bool
 	Workers          int
 	CaseTimeout      time.Duration
+	// Jitter: every third case of this property runs with the seeded scheduling jitter of
+	// the verif hooks switched on (completion order != input order at the stage boundaries).
+	Jitter bool
 }
 
 var registry = map[string]*Property{}
@@ -199,6 +204,11 @@ func WorkerMain(args []string) int {
 		}
 		jf.WriteString(fmt.Sprintf("B %d\n", idx))
 		done := make(chan Result, 1)
+		if p.Jitter && idx%3 == 2 {
+			verifhook.SetJitter(Mix(seed ^ uint64(idx)*0x9e3779b97f4a7c15))
+		} else if p.Jitter {
+			verifhook.SetJitter(0)
+		}
 		go func() { done <- p.Run(ctx, idx) }()
 		select {
 		case res := <-done:
@@ -313,6 +323,7 @@ type shardState struct {
 	journal string
 	stderr  string
 	crashes int
+	hangs   int
 }
 
 // RunMain is the parent: it runs all cases of a property in worker processes,
@@ -412,6 +423,16 @@ func RunMain(id, tier string) int {
 				}
 				mu.Unlock()
 				st.crashes++
+				if hang != "" {
+					st.hangs++
+				}
+				if st.hangs >= 5 {
+					// every hang costs a full case timeout; the verdict is already decided
+					mu.Lock()
+					agg.Inconclusive = append(agg.Inconclusive, fmt.Sprintf("shard %d: 5 hangs, shard abandoned", s))
+					mu.Unlock()
+					return
+				}
 				if st.crashes > 25 {
 					mu.Lock()
 					agg.Inconclusive = append(agg.Inconclusive, fmt.Sprintf("shard %d: more than 25 crashes, shard abandoned", s))
